@@ -8,6 +8,7 @@ import (
 	"io"
 	"net"
 	"net/http"
+	"sync"
 	"time"
 
 	"verif/vrt"
@@ -18,6 +19,9 @@ import (
 // the server will read, CloseClient makes the server see EOF; everything the server
 // writes is appended to Out (and handed to OnWrite).
 type Conn struct {
+	// mu guards the buffers in the free-running -race pass (client and server are real
+	// goroutines there); under the controlled scheduler it is never contended
+	mu       sync.Mutex
 	in       bytes.Buffer
 	inClosed bool
 	Out      []byte
@@ -44,19 +48,31 @@ func (timeoutErr) Temporary() bool { return true }
 func NewConn() *Conn { return &Conn{} }
 
 // Feed makes bytes available to the server (client -> server).
-func (c *Conn) Feed(p []byte) { c.in.Write(p) }
+func (c *Conn) Feed(p []byte) {
+	c.mu.Lock()
+	c.in.Write(p)
+	c.mu.Unlock()
+}
 
 // CloseClient: the client goes away (server reads EOF after the buffered bytes).
-func (c *Conn) CloseClient() { c.inClosed = true }
+func (c *Conn) CloseClient() {
+	c.mu.Lock()
+	c.inClosed = true
+	c.mu.Unlock()
+}
 
 func (c *Conn) Read(p []byte) (int, error) {
 	c.reading = true
 	vrt.Point("conn.read", c, func() int {
+		c.mu.Lock()
+		defer c.mu.Unlock()
 		if c.in.Len() > 0 || c.inClosed || c.Closed || c.deadlineExpired {
 			return 1
 		}
 		return 0
 	})
+	c.mu.Lock()
+	defer c.mu.Unlock()
 	c.reading = false
 	if c.Closed {
 		return 0, net.ErrClosed
@@ -84,7 +100,9 @@ func (c *Conn) Write(p []byte) (int, error) {
 	c.busyBy = id
 	vrt.Yield("conn.write")
 	c.busyBy = ""
+	c.mu.Lock()
 	c.Out = append(c.Out, p...)
+	c.mu.Unlock()
 	if c.OnWrite != nil {
 		c.OnWrite(p)
 	}
@@ -93,7 +111,9 @@ func (c *Conn) Write(p []byte) (int, error) {
 
 func (c *Conn) Close() error {
 	vrt.Yield("conn.close")
+	c.mu.Lock()
 	c.Closed = true
+	c.mu.Unlock()
 	return nil
 }
 
